@@ -363,7 +363,49 @@ class Context:
         return None
 
     def ext_getattr(self, I, obj, cell, name, node):
+        q = '%s.%s' % (cell.extname, name)
+        if ('<ext>', q) in self.registry.contracts:
+            return VBuiltin('extcontract:' + q, obj)
         return VBuiltin('extattr:' + name, obj)
+
+    def apply_ext_contract(self, I, q, self_val, args, kwargs, node):
+        """Assumed contract of a method of an external class (threading.Lock, ...)."""
+        contract = self.registry.contracts[('<ext>', q)]
+        self.assumed_contracts_used.add(contract.key)
+        names = [p for p, _ in contract.params]
+        vals = [self_val] + list(args)
+        if len(vals) > len(names):
+            I.require(False, 'call-arity', node, exc='TypeError')
+            raise PyExc(VExc('TypeError', origin='arity of ' + q))
+        env = dict(zip(names, vals))
+        for k, v in kwargs.items():
+            env[k] = v
+        for n in names:
+            env.setdefault(n, NONE)
+        pre = I.st.snapshot()
+        entry_env = dict(env)
+        try:
+            tag = ast.unparse(node)[:50]
+        except Exception:
+            tag = ''
+        for k, c in enumerate(contract.of('requires')):
+            v = self.eval_spec(I, c.args[0], env, contract.sidecar, pre, entry_env)
+            I.prove('%s:pre:%s.%d[%s#%d]' % (I.cur_func, q, k + 1, tag, self.static_ordinal(I, node)), 'precondition', I.truthy(v), node)
+        for k, c in enumerate(contract.of('raises')):
+            kw = {x.arg: x.value for x in c.keywords}
+            ename = ast.unparse(c.args[0])
+            cond = I.truthy(self.eval_spec(I, kw['when'], env, contract.sidecar, pre, entry_env)) if 'when' in kw else I.fresh_bool('raises_ext')
+            if I.branch(cond):
+                raise PyExc(VExc(ename, origin='contract of ' + q))
+        self.apply_modifies(I, contract, env)
+        res = NONE
+        if contract.ret is not None and contract.ret.name != 'NoneT':
+            res = self.make_symbolic(I, contract.ret, 'r_' + q.replace('.', '_'))
+        for c in contract.of('ensures'):
+            v = self.eval_spec(I, c.args[0], env, contract.sidecar, pre, entry_env, result=res, has_result=True)
+            I.assume(I.truthy(v))
+        I.emit(q, [self_val] + list(args), kwargs, res)
+        return res
 
     def instantiate_hook(self, I, info, args, kwargs, node):
         return None
@@ -420,6 +462,8 @@ class Context:
             return v.t
         if m.vkind == 'obj' and isinstance(v, VOpaque):
             return v.t
+        if m.vkind == 'obj' and isinstance(v, VNone):
+            return z3.Const('None.obj', T.Obj)
         unw = getattr(m, 'vunwrap', None)
         if unw:
             return unw(I, v)
@@ -491,10 +535,7 @@ class Context:
         if isinstance(c.content, list):
             return VInt(len(c.content))
         m = c.content
-        size = getattr(m, 'size', None)
-        if size is not None:
-            return VInt(size(m.t))
-        return VInt(self.uf('map_size_%s' % m.th.name, m.th.sort, T.I)(m.t))
+        return VInt(m.th.Size(m.t))
 
     def dict_items(self, I, d, node):
         c = I.cell(d)
@@ -577,8 +618,9 @@ class Context:
             return VTuple([self.make_symbolic(I, a, '%s_%d' % (name, k)) for k, a in enumerate(ty.args)])
         if n == 'Obj':
             return self.make_object(I, ty.args[0], name)
-        if n == 'Const':
-            return self.const_value(I, ty.args[0])
+        if n == 'DictStrObj':
+            th = T.MapSO
+            return I.alloc(HDict(VMap(I.fresh(name, th.sort), th, 'str', 'obj')))
         for pl in self.plugins:
             r = pl.make_symbolic(I, ty, name)
             if r is not None:
@@ -586,10 +628,13 @@ class Context:
         raise Unsupported('cannot make a symbolic value of type %r' % (ty,))
 
     def find_class(self, cname):
-        for sc in self.registry.sidecars.values():
-            pass
-        # search loaded modules, then the registry's class->file hints
-        for m in self.repo.modules.values():
+        for reg in (self.registry.contracts, self.registry.opaques, self.registry.inlines):
+            for (file, qual) in reg:
+                if qual.split('.')[0] == cname and file != '<ext>':
+                    m = self.repo.module(file)
+                    if cname in m.classes:
+                        return m.classes[cname]
+        for m in list(self.repo.modules.values()):
             if cname in m.classes:
                 return m.classes[cname]
         hint = self.registry.fields.get(cname, {}).get('__file__')
@@ -801,6 +846,8 @@ class Context:
                     # a heap reference must be read in the *old* heap: freeze lists to their value
                     if isinstance(r, VRef) and I.is_list(r):
                         r = I.seq_of(r, node)
+                    elif isinstance(r, VRef) and I.is_dict(r) and isinstance(I.cell(r).content, VMap):
+                        r = I.cell(r).content
                     elif isinstance(r, VOpt) and isinstance(r.val, VRef) and I.is_list(r.val):
                         r = VOpt(r.is_none, I.seq_of(r.val, node))
                     return r
@@ -844,6 +891,43 @@ class Context:
             if k >= len(evs):
                 raise Unsupported('event_arg: fewer than %d events %s on this path' % (k + 1, name), node)
             return evs[k].args[j]
+        if fn in ('contains_key', 'map_eq', 'map_get'):
+            def asmap(v):
+                v = I.unwrap(v)
+                if isinstance(v, VMap):
+                    return v
+                if I.is_dict(v) and isinstance(I.cell(v).content, VMap):
+                    return I.cell(v).content
+                raise Unsupported('%s needs a symbolic dict' % fn, node)
+            def concrete(v):
+                v = I.unwrap(v)
+                return I.is_dict(v) and isinstance(I.cell(v).content, list)
+
+            def lift(v, like):
+                t = like.th.Empty
+                for k, x in I.cell(I.unwrap(v)).content:
+                    t = like.th.Put(t, self.map_key_term(I, like, k, node), self.map_val_term(I, like, x, node))
+                return VMap(t, like.th, like.kkind, like.vkind)
+            a0 = I.ev(node.args[0], frame)
+            if fn == 'map_eq':
+                a1 = I.ev(node.args[1], frame)
+                if concrete(a0) and not concrete(a1):
+                    m2 = asmap(a1)
+                    m = lift(a0, m2)
+                elif concrete(a1) and not concrete(a0):
+                    m = asmap(a0)
+                    m2 = lift(a1, m)
+                else:
+                    m, m2 = asmap(a0), asmap(a1)
+                return VBool(m.t == m2.t)
+            if concrete(a0):
+                return VBool(self.dict_has(I, I.unwrap(a0), I.ev(node.args[1], frame), node)) if fn == 'contains_key' \
+                    else self.dict_get(I, I.unwrap(a0), I.ev(node.args[1], frame), node)
+            m = asmap(a0)
+            kt = self.map_key_term(I, m, I.ev(node.args[1], frame), node)
+            if fn == 'contains_key':
+                return VBool(m.th.Has(m.t, kt))
+            return self.map_val_wrap(I, m, m.th.Get(m.t, kt))
         if fn == 'mention':
             return VBool(T.MentionI(I.as_int(I.ev(node.args[0], frame))))
         if fn == 'truthy':
@@ -1360,6 +1444,8 @@ class Context:
     def verify_function(self, contract):
         rep = FunctionReport(contract.key)
         self.reports[contract.key] = rep
+        if contract.file == '<ext>':
+            return rep
         fi = self.repo.func(contract.file, contract.qualname)
         t0 = time.time()
         if fi is None:
@@ -1367,8 +1453,7 @@ class Context:
             rep.unsupported.append('function %s:%s not found in the working tree' % contract.key)
             return rep
         rep.source_hash = fi.source_hash()
-        if contract.assumed:
-            self.assumed_contracts_used.add(contract.key)
+        if contract.assumed or contract.file == '<ext>':
             return rep
         self.current = contract
         self.current_fi = fi
